@@ -63,6 +63,8 @@ type service struct {
 type resource struct {
 	Services []service `json:"services"`
 	Late     int       `json:"late"`
+	Place    string    `json:"place"` // where the resources sit in the Terraform plan: root / child / nested / split
+	WO       bool      `json:"wo"`    // write-only (private) dictionary
 	Kind     string    `json:"kind"`
 	Name     cps       `json:"name"`
 	Items    []item    `json:"items"`
@@ -209,7 +211,7 @@ func apiFetcher(w world, si int) snippet.Fetcher {
 // --- route 2: a Terraform plan (all services in ONE plan) read by the real plan parser
 func svcName(sv service) string { return "svc-" + sv.ID }
 
-func terraformServices(w world) ([]*terraform.FastlyService, bool, error) {
+func terraformServices(w world, place string) ([]*terraform.FastlyService, bool, error) {
 	const prov = "registry.terraform.io/fastly/fastly"
 	var res []map[string]any
 	var extra []map[string]any
@@ -224,8 +226,12 @@ func terraformServices(w world) ([]*terraform.FastlyService, bool, error) {
 				}
 				items[it.Key.String()] = it.Value.String()
 			}
-			dl = append(dl, map[string]any{"name": r.Name.String()})
+			dl = append(dl, map[string]any{"name": r.Name.String(), "write_only": r.WO})
+			if r.WO {
+				continue // the items of a private dictionary are not managed in the plan
+			}
 			extra = append(extra, map[string]any{"provider_name": prov, "type": "fastly_service_dictionary_items", "index": r.Name.String(),
+				"address": fmt.Sprintf("fastly_service_dictionary_items.items[%q]", r.Name.String()), "mode": "managed", "name": "items",
 				"values": map[string]any{"service_id": sv.ID, "items": items}})
 		}
 		for _, r := range sv.Acls {
@@ -239,6 +245,7 @@ func terraformServices(w world) ([]*terraform.FastlyService, bool, error) {
 			}
 			al = append(al, map[string]any{"name": r.Name.String()})
 			extra = append(extra, map[string]any{"provider_name": prov, "type": "fastly_service_acl_entries", "index": r.Name.String(),
+				"address": fmt.Sprintf("fastly_service_acl_entries.entries[%q]", r.Name.String()), "mode": "managed", "name": "entries",
 				"values": map[string]any{"service_id": sv.ID, "entry": es}})
 		}
 		svc["dictionary"], svc["acl"] = dl, al
@@ -260,13 +267,45 @@ func terraformServices(w world) ([]*terraform.FastlyService, bool, error) {
 				svc["director"] = []map[string]any{{"name": r.Name.String(), "type": r.Type, "retries": r.Retries, "quorum": r.Quorum, "backends": names}}
 			}
 		}
-		res = append(res, map[string]any{"provider_name": prov, "type": "fastly_service_vcl", "values": svc})
+		res = append(res, map[string]any{"provider_name": prov, "type": "fastly_service_vcl", "address": "fastly_service_vcl." + sv.ID,
+			"mode": "managed", "name": sv.ID, "values": svc})
 	}
 	// the items / entries resources of the LAST service come first: the join must not depend on their order
+	var items, entries []map[string]any
 	for i := len(extra) - 1; i >= 0; i-- {
-		res = append(res, extra[i])
+		if extra[i]["type"] == "fastly_service_acl_entries" {
+			entries = append(entries, extra[i])
+		} else {
+			items = append(items, extra[i])
+		}
 	}
-	plan := map[string]any{"planned_values": map[string]any{"root_module": map[string]any{"resources": res}}}
+	// a resource of another provider next to ours (for_each key as index)
+	other := map[string]any{"provider_name": "registry.terraform.io/hashicorp/null", "type": "null_resource", "address": "null_resource.x[\"k\"]",
+		"mode": "managed", "name": "x", "index": 0, "values": map[string]any{}}
+	mod := func(addr string, resources []map[string]any, children ...map[string]any) map[string]any {
+		m := map[string]any{"resources": resources}
+		if addr != "" {
+			m["address"] = addr
+		}
+		if len(children) > 0 {
+			m["child_modules"] = children
+		}
+		return m
+	}
+	all := append(append(append([]map[string]any{}, res...), items...), entries...)
+	var root map[string]any
+	switch place {
+	case "child":
+		root = mod("", []map[string]any{other}, mod("module.cdn", all))
+	case "nested":
+		root = mod("", []map[string]any{other}, mod("module.cdn", []map[string]any{}, mod("module.cdn.module.svc[\"a\"]", all)))
+	case "split": // service in the root, dictionary items in a child, ACL entries in a nested child of another child
+		root = mod("", append([]map[string]any{other}, res...), mod("module.items", items),
+			mod("module.acl", []map[string]any{}, mod("module.acl.module.entries[0]", entries)))
+	default:
+		root = mod("", append(all, other))
+	}
+	plan := map[string]any{"planned_values": map[string]any{"root_module": root}}
 	buf, _ := json.Marshal(plan)
 	services, err := terraform.ParseStdin(bytes.NewReader(buf))
 	return services, true, err
@@ -307,12 +346,15 @@ func (f *fakeAPI) RoundTrip(req *http.Request) (*http.Response, error) {
 	case strings.HasSuffix(p, "/version/3/dictionary"):
 		l := []map[string]any{}
 		for i, r := range sv.Dicts {
-			l = append(l, map[string]any{"id": fmt.Sprintf("D%d", i), "name": r.Name.String(), "write_only": false})
+			l = append(l, map[string]any{"id": fmt.Sprintf("D%d", i), "name": r.Name.String(), "write_only": r.WO})
 		}
 		body = j(l)
 	case strings.Contains(p, "/dictionary/D") && strings.HasSuffix(p, "/items"):
 		i, _ := strconv.Atoi(strings.TrimSuffix(p[strings.Index(p, "/dictionary/D")+13:], "/items"))
 		l := []map[string]any{}
+		if i < len(sv.Dicts) && sv.Dicts[i].WO { // the API refuses to list the items of a private dictionary
+			return &http.Response{StatusCode: 403, Header: http.Header{}, Body: io.NopCloser(strings.NewReader(`{"msg":"write-only dictionary"}`)), Request: req}, nil
+		}
 		if i < len(sv.Dicts) {
 			for _, it := range sv.Dicts[i].Items {
 				l = append(l, map[string]any{"item_key": it.Key.String(), "item_value": it.Value.String()})
@@ -603,12 +645,13 @@ func cmdReplay(args []string) int {
 			}
 			var tfs []*terraform.FastlyService
 			if route == "terraform" {
-				s, applicable, err := terraformServices(w)
+				s, applicable, err := terraformServices(w, b.Res.Place)
 				if !applicable {
 					continue
 				}
 				if err != nil {
-					r.Drift = append(r.Drift, map[string]any{"obs": "plan-not-read", "detail": firstLine(err.Error())})
+					// a plan the real parser rejects: no VCL is generated for these resources at all
+					mm("generate", "plan", "the plan is read", firstLine(err.Error()))
 					out.Write(r)
 					continue
 				}
